@@ -78,6 +78,7 @@ def parseOp (w : World) (ws : List String) : Option Op :=
 def stepLine (C : Cfg) (w : World) (ws : List String) : World × String :=
   match ws with
   | "alloc" :: _ => (w, "cfg")     -- allocator instances are not modelled (one heap)
+  | "serdecut" :: _ => (w, "throw")  -- a truncated image is rejected; the error paths leave the heap as it was
   | ["end"] =>
     -- end of history: everything must have been returned
     (w, s!"end blocks={w.heap.blocks.length} objs={w.objs.length}")
